@@ -10,48 +10,54 @@ import common, ks
 tier = common.tier_arg()
 v = common.Verdict("C06")
 seed = common.seed()
-cfg = "MC_Expire.cfg" if tier == "quick" else "MC_Expire_thorough.cfg"
+cfgs = ["MC_Expire.cfg"] if tier == "quick" else ["MC_Expire_thoroughA.cfg", "MC_Expire_thoroughB.cfg"]
 d = common.scratch("c06-")
-table = os.path.join(d, "edges.txt")
-res = common.run_tlc("MC_Expire", cfg=cfg, workers=16, heap="6g", timeout=1500, stdout_path=table)
-common.tlc_ok(res, cfg)   # the C06 clauses hold on the model (NotBefore, GoneAfter, NoTtlNeverExpires, ExpireOptions, ...)
 tool = ks.build_tool("ttltour")
-rounds = 1 if tier == "quick" else 3
-cov = {"states": res.distinct, "transitions": res.generated, "traces_validated_against_impl": 0, "samples": [], "events": 0,
-       "straddling_commands": 0, "max_ticks": 0, "rounds": rounds, "tlc_wall_s": round(res.wall, 1)}
+rounds = 1 if tier == "quick" else 2
+cov = {"states": 0, "transitions": 0, "traces_validated_against_impl": 0, "samples": [], "events": 0,
+       "straddling_commands": 0, "max_ticks": 0, "rounds": rounds, "instances": {}}
 labels = set()
-for rnd in range(rounds):
-    trace = os.path.join(d, "ttl-%d.ndjson" % rnd)
-    p = subprocess.run([tool, "-edges", "-perclass", "2" if tier == "quick" else "6", "-random", "200" if tier == "quick" else "2000",
-                        "-seed", str(seed * 10 + rnd), "-out", trace], stdin=open(table), stdout=subprocess.PIPE, stderr=subprocess.PIPE, text=True, timeout=600)
-    if p.returncode != 0:
-        common.die_infra("ttltour failed: " + p.stderr[-2000:])
-    summ = json.loads([l for l in p.stdout.splitlines() if l.startswith("SUMMARY ")][0][8:])
-    cov["traces_validated_against_impl"] += summ["programmes"]
-    cov["events"] += summ["events"]
-    cov["straddling_commands"] += summ["straddling_commands"]
-    cov["max_ticks"] = max(cov["max_ticks"], summ["max_ticks"])
-    # shard the trace by programme
-    nsh = 8
-    shards = [open(os.path.join(d, "shard-%d-%d.ndjson" % (rnd, i)), "w") for i in range(nsh)]
-    cur = 0
-    for line in open(trace):
-        if line.startswith('{"ev":"reset"'):
-            cur = (cur + 1) % nsh
-        shards[cur].write(line)
-    for s in shards:
-        s.close()
-    paths = [s.name for s in shards if os.path.getsize(s.name) > 0]
-    with concurrent.futures.ThreadPoolExecutor(max_workers=8) as ex:
-        for path, r in zip(paths, ex.map(ks.validate_trace, paths)):
-            labels |= r["labels"]
-            for m in r["mismatches"]:
-                sig = ks.signature(m)
-                v.report(sig, ks.replay_of(m, path), what="real clock, second %s:\n%s" % (m.get("line"), ks.explain(m, path, context=10)))
-            if not cov["samples"]:
-                tr = ks.load_trace(path)
-                first = [e for e in tr if e["ev"] == "cmd"][:12]
-                cov["samples"].append({"kind": "real-clock programme", "commands": ["t=%d %s -> %s" % (e["now"], ks.show_argv(e["argv"]), ks.show_reply(e["reply"])) for e in first]})
+for ci, cfg in enumerate(cfgs):
+    table = os.path.join(d, "edges-%d.txt" % ci)
+    # (the in-memory state queue: TLC's disk queue cannot serialise some nested function values of the keyspace state)
+    res = common.run_tlc("MC_Expire", cfg=cfg, workers=16, heap="12g", timeout=3000, stdout_path=table, jvm=("-Dtlc2.tool.queue.IStateQueue=MemStateQueue",))
+    common.tlc_ok(res, cfg)   # the C06 clauses hold on the model (NotBefore, GoneAfter, NoTtlNeverExpires, ExpireOptions, ...)
+    cov["states"] += res.distinct
+    cov["transitions"] += res.generated
+    cov["instances"][cfg] = {"states": res.distinct, "transitions": res.generated, "tlc_wall_s": round(res.wall, 1)}
+    for rnd in range(rounds):
+        trace = os.path.join(d, "ttl-%d-%d.ndjson" % (ci, rnd))
+        p = subprocess.run([tool, "-edges", "-perclass", "2" if tier == "quick" else "6", "-random", "200" if tier == "quick" else "1000",
+                            "-seed", str(seed * 10 + rnd + 100 * ci), "-out", trace], stdin=open(table), stdout=subprocess.PIPE, stderr=subprocess.PIPE, text=True, timeout=1200)
+        if p.returncode != 0:
+            common.die_infra("ttltour failed: " + p.stderr[-2000:])
+        summ = json.loads([l for l in p.stdout.splitlines() if l.startswith("SUMMARY ")][0][8:])
+        cov["traces_validated_against_impl"] += summ["programmes"]
+        cov["events"] += summ["events"]
+        cov["straddling_commands"] += summ["straddling_commands"]
+        cov["max_ticks"] = max(cov["max_ticks"], summ["max_ticks"])
+        # shard the trace by programme
+        nsh = 8
+        shards = [open(os.path.join(d, "shard-%d-%d-%d.ndjson" % (ci, rnd, i)), "w") for i in range(nsh)]
+        cur = 0
+        for line in open(trace):
+            if line.startswith('{"ev":"reset"'):
+                cur = (cur + 1) % nsh
+            shards[cur].write(line)
+        for sh in shards:
+            sh.close()
+        paths = [sh.name for sh in shards if os.path.getsize(sh.name) > 0]
+        with concurrent.futures.ThreadPoolExecutor(max_workers=8) as ex:
+            for path, r in zip(paths, ex.map(ks.validate_trace, paths)):
+                labels |= r["labels"]
+                for m in r["mismatches"]:
+                    sig = ks.signature(m)
+                    v.report(sig, ks.replay_of(m, path), what="real clock, second %s:\n%s" % (m.get("line"), ks.explain(m, path, context=10)))
+                if not cov["samples"]:
+                    tr = ks.load_trace(path)
+                    first = [e for e in tr if e["ev"] == "cmd"][:12]
+                    cov["samples"].append({"kind": "real-clock programme", "commands": ["t=%d %s -> %s" % (e["now"], ks.show_argv(e["argv"]), ks.show_reply(e["reply"])) for e in first]})
+    os.remove(table)
 # ---- lifecycle programmes (in process, long deadlines): a key that ceases to exist - DEL, or an aggregate emptied by any
 # draining command - loses its deadline; re-created keys start without one; structural check (no deadline recorded for a
 # missing key) after every command
